@@ -407,6 +407,38 @@ PROPS["C47"] = dict(
     units=[U("harness", "props", "TestVerif_C47_Setup", T(600, timeout=300), T(3000, shards=16, timeout=1500), variants=QUEUES)],
 )
 
+PROPS["C39"] = dict(
+    level="exploration",
+    technique="property-based testing (rapid) of timed plans in a synctest bubble: 2-4 rueidisaside clients (plain and typed, SET NX and Lua lock) with concurrent Gets, Dels, loader latencies/outcomes, client Close, crash (no re-dial, liveness key expires), connection kills and external writes against the fake server (real Lua scripts, client-side caching pushes, key expiry on the virtual clock); oracle = server-log truth of the key plus loader interval history",
+    level_text="Generated interleavings of up to 4 clients x 3 callers x 4 operations on 1-3 keys with loader latencies 0-50 ms, TTLs both generous and shorter than the load, and client deaths at generated instants. Every successful result must be free of the lock placeholder and be the call's own loader output or a value stored for the key during the call; loaders of a key may overlap only after a Del/overwrite/expiry, a holder death or a lock timeout; a Get with a generous TTL on a live client must not time out (locks of dead clients are released, wake-ups are not missed).",
+    level_note="Loaders honour their context (a load never outlives its lock silently). Typed clients are only called with a loader (the typed wrapper calls a nil loader unconditionally). A disconnect is allowed to strand a lock for one liveness TTL (reply of the lock command lost, DEL of the old client id fails while disconnected). The test runs on one P because of a Go 1.25.0 runtime defect (bubble specials allocated without mheap_.speciallock). " + LIMITS,
+    units=[U("harness", "props", "TestVerif_C39_Aside", T(1500, timeout=300), T(8000, shards=16, timeout=1500))],
+)
+
+PROPS["C23"] = dict(
+    level="exploration",
+    technique="property-based testing (rapid) of generated sentinel scenarios in a testing/synctest bubble against a wire-level fake Redis with a sentinel personality (per-sentinel views kept apart from the data nodes' true roles); oracle = per-node server log: ROLE answers per connection option set, sentinel replies and events received, destination of every uniquely keyed user command",
+    level_text="1-3 sentinels with own (stale, wrong or lagging) views, 2-4 data nodes; histories of failovers (each sentinel learns at once, after n more answers or never, with or without +switch-master; promoted node still answering ROLE slave for 0-2 queries), failovers sprung right after a sentinel answered (role flip between the answer and the client's ROLE check), view changes, +sdown/-sdown/+slave/+reboot/+sentinel events, connection kills and refused dials; clients in primary, SendToReplicas and ReplicaOnly mode with traffic through every call type on and around the events. Every user command must be on a node that answered ROLE with the needed role on a connection of that option set and (primary) was named master by a sentinel before; after a received +switch-master and 5 s without change primary traffic must be on the announced master only, and final probes must reach it.",
+    level_note="Scenarios are instantaneous in virtual time and staleness is counted in answers, not in time (the client holds a sync.Mutex across a refresh, which would freeze the virtual clock otherwise); one anchor sentinel always becomes truthful after at most 2 answers, because a refresh that cannot succeed is retried by the client in a hot loop. Events at the same virtual instant as a call are ties (accepted either way): the wrong-role clause judges calls that started strictly after the wrong answer. Connections are attributed to the client's master or replica option set through the *net.Dialer pointer given to DialCtxFn. A ReplicaOnly client keeps its replica after that node is promoted unless a replica event arrives (the property only demands the ROLE answer at selection). Arrival of final probes is demanded only for retried reads when data connections were cut. " + LIMITS,
+    units=[U("harness", "sentinel", "TestVerif_C23_FollowMaster", T(300, timeout=300), T(2500, shards=16, timeout=1500), variants=QUEUES)],
+)
+
+# C21: the units below cover the standalone-with-replicas and the sentinel client; the cluster unit is added by its own entry
+_C21_SENTINEL_UNITS = [
+    U("harness", "sentinel", "TestVerif_C21_StandaloneReplicas", T(400, timeout=300), T(3000, shards=16, timeout=1500), variants=QUEUES),
+    U("harness", "sentinel", "TestVerif_C21_SentinelReplicas", T(400, timeout=300), T(3000, shards=16, timeout=1500), variants=QUEUES),
+]
+if "C21" in PROPS:
+    PROPS["C21"]["units"] = PROPS["C21"]["units"] + _C21_SENTINEL_UNITS
+else:
+    PROPS["C21"] = dict(
+        level="exploration",
+        technique="property-based testing (rapid) of generated routing scenarios in a testing/synctest bubble against a wire-level fake Redis: generated SendToReplicas predicates, ReadNodeSelector answers and ReplicaOnly; oracle = destination node of every uniquely keyed user command in the per-node server log against a reference evaluation of the predicate",
+        level_text="Standalone client with 1-3 replica addresses and sentinel client (1-3 sentinels, 2-4 nodes, fixed roles): predicates always / never / read-only names / name set / key parity, batches of 2-4 with mixed predicate values, selector answers negative, 0, valid, len, len+1, len+5 with filled and empty candidate lists, ReplicaOnly, replica re-selection events and connection kills; traffic through Do, DoMulti, DoCache, DoMultiCache, DoStream, DoMultiStream, blocking commands and Receive. A command may be on a replica only if the predicate is true for it (for every member of its batch) or the client is ReplicaOnly; an out-of-range selector answer must land on the primary.",
+        level_note="Only the direction stated by the property is asserted (replica => allowed; out-of-range => primary): a qualifying command on the primary is accepted (DoCache/DoMultiCache of the standalone client always use the primary; an in-range selector answer is not compared with the destination). The sentinel client has no node selector at this commit. Sentinel plans keep the true roles fixed so that 'replica' is a property of the node; role changes are covered by C23. " + LIMITS,
+        units=list(_C21_SENTINEL_UNITS),
+    )
+
 # ---- END PROPS (new entries go above this line)
 
 # every property without a check is listed here with its reason (kept current while building)
